@@ -2,13 +2,14 @@
   Props.C11.KernelTie — the translator tie for the Argon2 compression core (src/kdf/argon2.rs).
   `Extracted/KernelsArgon2.lean` is regenerated from the CURRENT Rust source on every run by tools/ktx_misc.py
   (kernel specs tools/kernels/argon2.py): `add_and_mul`, `gb`, the permutation `p`, the bodies of the two
-  `for i in 0..8` loops of `fill_block` (row-wise / column-wise index patterns) and `fill_block` itself, translated
-  statement by statement.  The theorems say that the hand-written models `Impl.Argon2.*` (shared with the Spec as
+  `for i in 0..8` loops of `fill_block` (row-wise / column-wise index patterns), `fill_block` itself, and the index
+  arithmetic of `index_alpha` (u32 / u64, every checked operation a bind), translated statement by statement.  The theorems say that the hand-written models `Impl.Argon2.*` (shared with the Spec as
   `…_core_shared`, so far tied to the code by the correspondence only) compute exactly what the source says now,
   for ALL inputs: a changed rotation, mask, word index or loop stride in the source breaks a proof obligation.
 -/
 import CxVerif.Extracted.KernelsArgon2
 import CxVerif.Impl.Argon2
+import CxVerif.Proofs.BindWalk
 namespace Cx.Props.C11.KernelTie
 open Cx Cx.Impl.Argon2 Cx.Extracted.KernelsArgon2
 open Cx.Spec.Argon2 (Block)
@@ -25,5 +26,35 @@ theorem fill_block_src_eq_model (prev_block ref_block next_block : Block) (with_
   unfold fill_block_src fill_block
   rw [hr, hc]
   cases with_xor <;> rfl
+
+/-! ### `index_alpha` (RFC 9106 3.4.2): reference area size, the u64 mapping, start position, absolute position.
+The translation branches where the source branches (7 × 3 cases, the continuation duplicated) and keeps the Rust evaluation
+order (`reference_area_size - 1` BEFORE `reference_area_size * relative_position`); the model computes the two `if`
+blocks first and has the product before the subtraction.  Both are programs in the Option monad, so the order of two
+independent checked operations is immaterial (`bind_comm_opt`). -/
+private theorem bind_comm_opt {α β γ : Type} (x : Option α) (y : Option β) (f : α → β → Option γ) :
+    (x.bind fun a => y.bind fun b => f a b) = (y.bind fun b => x.bind fun a => f a b) := by
+  cases x <;> cases y <;> rfl
+
+theorem index_alpha_src_eq_model (params : Params) (position : BlockPos) (pseudo_rand : Nat) (same_lane : Bool) :
+    index_alpha_src params position pseudo_rand same_lane = index_alpha params position pseudo_rand same_lane := by
+  unfold index_alpha_src index_alpha index_alpha.reference_area_size index_alpha.start_position
+  have hs : SYNC_POINTS - 1 = 3 := rfl      -- `SYNC_POINTS` is re-read from the source by the translator (constant-folded to 3)
+  simp only [hs]
+  have e1 := Classical.em (position.pass = 0)
+  have e2 := Classical.em (position.slice = 0)
+  have e3 := Classical.em (same_lane = true)
+  have e4 := Classical.em (position.index = 0)
+  have e5 := Classical.em (position.slice = 3)
+  rcases e1 with h1 | h1 <;> rcases e2 with h2 | h2 <;> rcases e3 with h3 | h3 <;> rcases e4 with h4 | h4 <;>
+    rcases e5 with h5 | h5 <;>
+    (first | (have h1 := eq_false h1) | (have h1 := eq_true h1)) <;>
+    (first | (have h2 := eq_false h2) | (have h2 := eq_true h2)) <;>
+    (first | (have h3 := eq_false h3) | (have h3 := eq_true h3)) <;>
+    (first | (have h4 := eq_false h4) | (have h4 := eq_true h4)) <;>
+    (first | (have h5 := eq_false h5) | (have h5 := eq_true h5)) <;>
+    simp only [h1, h2, h3, h4, h5, if_true, if_false, ne_eq, not_true_eq_false, not_false_eq_true, Option.bind_eq_bind,
+      Option.pure_def, Option.bind_assoc, Option.bind_some] <;>
+    (repeat (first | rfl | refine Cx.Proofs.BindWalk.bcongr _ _ _ _ rfl (fun _ => ?_) | exact bind_comm_opt _ _ _))
 
 end Cx.Props.C11.KernelTie
